@@ -16,14 +16,14 @@ import (
 func init() { runners["C09"] = runner{run: runC09, replay: replayC09} }
 
 type revOp struct {
-	K string `json:"k"` // "r" revoke-at, "c" clear, "k" compact
+	K   string `json:"k"` // "r" revoke-at, "c" clear, "k" compact
 	Key string `json:"key,omitempty"`
 	T   int64  `json:"t,omitempty"`
 }
 
 type c09Replay struct {
-	Target string  `json:"target"` // account | export
-	Ops    []revOp `json:"ops"`
+	Target string   `json:"target"` // account | export
+	Ops    []revOp  `json:"ops"`
 	QKeys  []string `json:"qkeys"`
 	QTimes []int64  `json:"qtimes"`
 }
